@@ -555,7 +555,8 @@ def run_check(pid, tier, seed):
                 break
     if ctx.violations:
         v = ctx.violations[0]
-        small = shrink(prop, model_mod, v['scenario'], v['sig']) if 'scenario' in v and v.get('shrink', True) else v.get('scenario')
+        sprop, smod = stream_of(prop, model_mod, v.get('scenario'))
+        small = shrink(sprop, smod, v['scenario'], v['sig']) if 'scenario' in v and v.get('shrink', True) else v.get('scenario')
         path = write_replay(pid, {'property': pid, 'kind': 'failing-input', 'model': prop.MODEL,
                                   'sig': v['sig'], 'what': v['what'], 'scenario': small,
                                   'original_scenario': v.get('scenario'), 'broken': ctx.broken,
@@ -594,6 +595,15 @@ def write_evidence(ctx, prop, status):
     (evidence_dir() / f'{ctx.pid}.json').write_text(json.dumps(ev, indent=1, default=str))
 
 
+def stream_of(prop, model_mod, lines):
+    """A plug-in may run a second scenario stream over another model (`stream_for(lines)` returns the
+    plug-in-like object judging such a scenario): shrink and replay go through it."""
+    sub = prop.stream_for(lines) if lines and hasattr(prop, 'stream_for') else None
+    if sub is None:
+        return prop, model_mod
+    return sub, importlib.import_module(f'harness.models.{sub.MODEL}')
+
+
 def replay(pid, path):
     use_repo()
     prop = importlib.import_module(f'harness.props.{pid}')
@@ -612,6 +622,7 @@ def replay(pid, path):
         lines = [ln for ln in p.read_text().splitlines() if ln.strip() and not ln.startswith('#')]
     if hasattr(prop, 'replay'):
         return prop.replay(lines)
+    prop, model_mod = stream_of(prop, model_mod, lines)
     try:
         obs, hints = run_impl_guarded(model_mod, lines)
     except Timeout:
